@@ -52,6 +52,13 @@ def cases(tier, seed):
     for j in range(nn):
         cs.append(dict(kind='nonlinear', which=j % 5, nlev=int(rng.choice([2, 3])), Ms=[int(x) for x in sorted(rng.integers(2, 6, size=3), reverse=True)], qt=['RADAU-RIGHT', 'LOBATTO'][j % 2],
                        iorder=int(rng.choice([2, 4, 6, 8])), finter=bool(rng.random() < 0.4), nsweeps_mid=int(rng.choice([1, 2])), seed=int(rng.integers(0, 2**31)), _cost=20))
+        if j % 3 == 0:
+            # a different quadrature type on every level (only the finest has to end on a node for the copy end point)
+            nl = cs[-1]['nlev']
+            cs[-1]['qts'] = [['RADAU-RIGHT', 'LOBATTO'][j % 2]] + [['LOBATTO', 'RADAU-RIGHT', 'RADAU-LEFT', 'GAUSS'][int(rng.integers(0, 4))] for _ in range(nl - 1)]
+        if j % 4 == 1:
+            # deep hierarchies: node coarsening only (identity space transfer), 4-5 levels
+            cs[-1].update(which=2 + (j // 4) % 2, nlev=int(rng.choice([4, 5])), Ms=[6, 5, 4, 3, 2])
     for j in range(30 if tier == 'quick' else 3000):
         nlev = int(rng.choice([2, 3, 3]))
         n0 = int(rng.integers(2, 9))
@@ -314,8 +321,9 @@ def run_nonlinear(case, r):
 
     which, nlev = case['which'], case['nlev']
     Ms = case['Ms'][:nlev]
-    if case['qt'] == 'LOBATTO':
-        Ms = [max(2, m) for m in Ms]
+    qts = (case.get('qts') or [case['qt']] * nlev)[:nlev]
+    qts = qts + [qts[-1]] * (nlev - len(qts))
+    Ms = [max(2, m) if q in ('LOBATTO', 'RADAU-LEFT') else m for m, q in zip(Ms, qts)]
     tol = dict(newton_tol=1e-13, newton_maxiter=200)
     st, stp = mesh_to_mesh, dict(iorder=case['iorder'], rorder=2)
     if which == 0:
@@ -334,9 +342,9 @@ def run_nonlinear(case, r):
             st, stp = mesh_to_mesh_fft, {}
         else:
             stp = dict(iorder=case['iorder'], rorder=2, periodic=True)
-    r.key = f"nonlinear/{pc.__name__}/{nlev}/{Ms}/{case['qt']}/{st.__name__}/{stp}/finter{case['finter']}/mid{case['nsweeps_mid']}"
+    r.key = f"nonlinear/{pc.__name__}/{nlev}/{Ms}/{qts}/{st.__name__}/{stp}/finter{case['finter']}/mid{case['nsweeps_mid']}"
     tag = r.key
-    swp = dict(num_nodes=Ms, quad_type=case['qt'], QI='LU')
+    swp = dict(num_nodes=Ms, quad_type=qts if len(set(qts)) > 1 else qts[0], QI='LU')
     nsw = [1] * nlev
     if nlev == 3:
         nsw[1] = case['nsweeps_mid']
@@ -344,7 +352,7 @@ def run_nonlinear(case, r):
                 step_params=dict(maxiter=1), space_transfer_class=st, space_transfer_params=stp, base_transfer_params=dict(finter=case['finter']))
     # single-level fine problem iterated to convergence first
     pp1 = {k: (v[0] if isinstance(v, list) else v) for k, v in pp.items()}
-    d1 = dict(problem_class=pc, problem_params=pp1, sweeper_class=generic_implicit, sweeper_params=dict(num_nodes=Ms[0], quad_type=case['qt'], QI='LU'),
+    d1 = dict(problem_class=pc, problem_params=pp1, sweeper_class=generic_implicit, sweeper_params=dict(num_nodes=Ms[0], quad_type=qts[0], QI='LU'),
               level_params=dict(dt=dt, restol=1e-13), step_params=dict(maxiter=300))
     c1 = controller_nonMPI(1, dict(logger_level=50, dump_setup=False), d1)
     P1 = c1.MS[0].levels[0].prob
@@ -375,11 +383,11 @@ def run_nonlinear(case, r):
     scale = max(1.0, float(np.max(np.abs(before))))
     e = float(np.max(np.abs(after - before)))
     r.check(e <= 1e-10 * scale, 'fine-fixed-point-preserved', f'{tag}: the converged fine solution changed by {e:.3e} in one down-up cycle (scale {scale:.2e})')
-    gens = [ref.coll(m, 'LEGENDRE', case['qt']) for m in Ms]
+    gens = [ref.coll(m, 'LEGENDRE', q) for m, q in zip(Ms, qts)]
     transfers = []
     for l in range(nlev - 1):
         Rs, Ps = space_matrices(bts[l].space_transfer, S.levels[l].prob, S.levels[l + 1].prob)
-        same = Ms[l] == Ms[l + 1]
+        same = Ms[l] == Ms[l + 1] and qts[l] == qts[l + 1]
         Pc = np.eye(Ms[l]) if same else mref.lagrange_matrix(gens[l].nodes, gens[l + 1].nodes)
         Rc = np.eye(Ms[l]) if same else mref.lagrange_matrix(gens[l + 1].nodes, gens[l].nodes)
         transfers.append((Rs, Ps, Rc, Pc))
